@@ -28,7 +28,7 @@ LEAN = {"module": "Pygom.Props.C10", "extra_modules": ["Pygom.Props.C10Link"],
                      "Pygom.C10Link.stoch_path_sum_const_model",
                      "Pygom.C10.ode_sum_zero", "Pygom.C10.vmat_col_sum_zero", "Pygom.C10.flow_sum_const",
                      "Pygom.C10.step_sum_const", "Pygom.C10.path_sum_const"]}
-BUDGET = {"quick": {"models": 90, "runs": 2}, "thorough": {"models": 1500, "runs": 4}}
+BUDGET = {"quick": {"models": 90, "runs": 2, "long": 24}, "thorough": {"models": 1500, "runs": 4, "long": 240}}
 RULE = ("transition-only models (2-5 states, 1-5 events of 1-3 T transitions, all rate kinds incl. time-periodic; a third with symbolic "
         "magnitudes (ODE part only), the rest integer magnitudes 1-3 also simulated in a session of six calls on the one instance, in "
         "random order: {exact, adaptive tau, fixed tau} x {raw, gridded}, 2-4 paths each; before each call the initial state is "
@@ -39,7 +39,13 @@ RULE = ("transition-only models (2-5 states, 1-5 events of 1-3 T transitions, al
         "row sums of every returned array are taken after the call AND again after all later calls; the caller's arrays and "
         "model.initial_state are compared with the harness's own copies (a side effect there is a tag and a broken correspondence, "
         "not a violation: C10 states totals); "
-        "non-trivial = at least one event fired in some path or a non-zero ODE component")
+        "non-trivial = at least one event fired in some path or a non-zero ODE component.  ROUND D, `long` cases (deterministic part): closed "
+        "SEIRS / SIRS / two-strain / seasonally forced SEIRS models with waning immunity, 1e5-1e7 heads, beta 1-3, gamma 0.3-0.6, waning "
+        "0.005-0.02 per day, observed yearly for 3-6 years / once after two years and then every 10 days / at 3-5 irregular days in "
+        "[200, 2500]; x0 as float list / int list / array, the grid as array / list; integrate(t) and integrate(t, full_output=True) are "
+        "both judged by the row sums (1e-6 of the head count), whatever message odeint reports; an independent step count (scipy odeint on "
+        "model.ode, mxstep 200000) tags the work per gap and excludes cases needing more than 5000 steps in one gap (half the documented "
+        "mxstep = 10000); non-trivial = some gap needs more than 500 steps (LSODA's own default limit)")
 ASSUMPTIONS = ["deterministic conservation is checked to 1e-6 relative (scipy odeint tolerance assumed)",
                "gridded tau-leap rows are float interpolations of integer records, column by column: their sum is compared to 1e-9 relative "
                "(rounding of the interpolation is ~1e-16); raw paths and gridded exact rows are compared exactly",
@@ -62,11 +68,125 @@ def make_cases(rng, tier, budget):
         cases.append({"spec": spec, "meta": meta, "point": {k: str(v) for k, v in pt.items()}, "sym": sym, "x0": x0,
                       "theta": {k: str(v) for k, v in theta.items()}, "seed": r.randint(0, 2 ** 31 - 1),
                       "runs": budget["runs"], "pre_tau": r.choice([None, None, 0.05, 0.3]), "float_x0": r.random() < 0.5})
+    shift = rng.randrange(12)                      # drawn after everything above: the earlier cases are the same as before
+    for i in range(budget.get("long", 0)):
+        cases.append(_long_case(random.Random(rng.getrandbits(64)), i + shift))
     return cases
 
 
 def search_cases(rng, tier, budget):
-    return make_cases(rng, tier, {"models": budget["models"] * 3, "runs": budget["runs"]})
+    return make_cases(rng, tier, {"models": budget["models"] * 3, "runs": budget["runs"], "long": budget.get("long", 0) * 2})
+
+
+# ---- ROUND D: long, sparsely sampled horizons on closed oscillatory models with head-count populations ------------------
+LONG_MODELS = ("SEIRS", "SIRS", "two-strain", "SEIRS-seasonal")
+
+
+def _long_spec(name):
+    V, M, D, N_ = E.var, E.mul, E.div, E.num
+    def ev(rate, o, d):
+        return {"rate": rate, "transitions": [gen.transition_json({"type": "T", "origin": o, "dest": d, "mag": N_(1)})]}
+    tot = lambda sts: (lambda acc: acc)(__import__("functools").reduce(E.add, [V(x) for x in sts]))
+    if name in ("SEIRS", "SEIRS-seasonal"):
+        states, params = ["S", "E", "I", "R"], ["beta", "sigma", "gamma", "delta"] + (["a"] if name == "SEIRS-seasonal" else [])
+        foi = D(M(M(V("beta"), V("S")), V("I")), tot(states))
+        if name == "SEIRS-seasonal":      # beta (1 + a cos(2 pi t / 365))
+            foi = M(E.add(N_(1), M(V("a"), E.fn("cos", D(M(M(N_(2), E.PI), V("t")), N_(365))))), foi)
+        events = [ev(foi, "S", "E"), ev(M(V("sigma"), V("E")), "E", "I"), ev(M(V("gamma"), V("I")), "I", "R"), ev(M(V("delta"), V("R")), "R", "S")]
+    elif name == "SIRS":
+        states, params = ["S", "I", "R"], ["beta", "gamma", "delta"]
+        events = [ev(D(M(M(V("beta"), V("S")), V("I")), tot(states)), "S", "I"), ev(M(V("gamma"), V("I")), "I", "R"), ev(M(V("delta"), V("R")), "R", "S")]
+    else:                                 # two strains, one recovered class, waning immunity
+        states, params = ["S", "A", "B", "R"], ["beta", "kappa", "gamma", "delta"]
+        events = [ev(D(M(M(V("beta"), V("S")), V("A")), tot(states)), "S", "A"), ev(D(M(M(V("kappa"), V("S")), V("B")), tot(states)), "S", "B"),
+                  ev(M(V("gamma"), V("A")), "A", "R"), ev(M(V("gamma"), V("B")), "B", "R"), ev(M(V("delta"), V("R")), "R", "S")]
+    spec = {"state": {"list": states}, "param": {"list": params}, "derived": [],
+            "ctor": {"event": events, "transition": [], "birth_death": [], "ode": []}, "then": []}
+    return spec, states, params
+
+
+def _long_case(r, i):
+    """a CLOSED model whose solution oscillates for years (recurrent epidemics damped by waning immunity, or seasonally forced), a
+    population of 1e5-1e7 HEADS, observed a few times only - yearly, or once after a long gap and then densely, or irregularly: each
+    gap between requested times costs the integrator hundreds to thousands of internal steps (seeded C10-d1: without mxstep odeint
+    gives up after 500 steps per gap, warns, and returns uninitialised rows)."""
+    name = LONG_MODELS[i % len(LONG_MODELS)]
+    spec, states, params = _long_spec(name)
+    Ntot = r.choice([10 ** 5, 10 ** 6, 10 ** 7])
+    inf = r.randint(1, 20)
+    x0 = [0] * len(states)
+    if name == "two-strain":
+        x0[1], x0[2] = inf, r.randint(1, 20)
+    else:
+        x0[states.index("I")] = inf
+    x0[0] = Ntot - sum(x0)
+    th = {"beta": round(r.uniform(1.0, 3.0), 3), "gamma": round(r.uniform(0.3, 0.6), 3), "delta": round(r.uniform(0.005, 0.02), 4)}
+    if "sigma" in params: th["sigma"] = round(r.uniform(0.3, 0.6), 3)
+    if "kappa" in params: th["kappa"] = round(th["beta"] * r.uniform(0.8, 1.2), 3)
+    if "a" in params: th["a"] = round(r.uniform(0.1, 0.3), 3)
+    shape = ["yearly", "long-first-gap-then-dense", "irregular"][(i // len(LONG_MODELS)) % 3]
+    if shape == "yearly":
+        grid = [365.0 * k for k in range(1, r.randint(4, 7))]
+    elif shape == "long-first-gap-then-dense":
+        grid = [730.0 + 10.0 * k for k in range(r.randint(4, 8))]
+    else:
+        grid = sorted(set(float(r.randint(200, 2500)) for _ in range(r.randint(3, 5))))
+    return {"kind": "long", "name": name, "spec": spec, "states": states, "params": params, "x0": x0, "theta": {k: str(th[k]) for k in params},
+            "grid": grid, "grid_shape": shape, "grid_form": r.choice(["array", "list"]), "x0_form": r.choice(["list_float", "list_int", "array"])}
+
+
+def run_long(case):
+    tags, mism, viol = ["family:long-horizon", "long:" + case["name"], "grid:" + case["grid_shape"]], [], []
+    lr, model, perr, stage = build_both(case["spec"])
+    mism += compare_errors(lr, perr, stage)
+    if perr is not None or lr.get("err") is not None:
+        viol.append({"what": "well-formed model rejected: %s" % perr, "signature": "reject:%s" % perr, "detail": ""})
+        return {"nontrivial": False, "mismatches": mism, "violations": viol, "tags": tags + ["rejected"]}
+    states = [str(s_) for s_ in model.state_list]; params = [str(p_) for p_ in model.param_list]
+    theta = [float(case["theta"][p_]) for p_ in params]
+    model.parameters = theta
+    total = float(sum(case["x0"]))
+    grid = np.array(case["grid"], float)
+    # how much work do these gaps need?  An independent count: scipy's odeint on the model's own right-hand side with a generous
+    # step budget; a gap that needs more than half of pygom's documented budget (mxstep = 10000) is not judged
+    from scipy.integrate import odeint
+    x0f = np.array(case["x0"], float)
+    with quiet():
+        ref, info = odeint(lambda x, t: np.asarray(model.ode(x, t), float).ravel(), x0f, np.concatenate([[0.0], grid]), mxstep=200000, full_output=True)
+    nst = np.diff(np.concatenate([[0], np.asarray(info["nst"], int)]))
+    tags.append("steps-per-gap<=%d" % (10 ** len(str(int(nst.max())))))
+    if info.get("message") != "Integration successful." or nst.max() > 5000:
+        return {"nontrivial": False, "mismatches": mism, "violations": viol, "tags": tags + ["long:too-much-work-for-the-documented-budget(not judged)"]}
+    if nst.max() > 500:
+        tags.append("long:a-gap-needs-more-than-500-steps")
+    x0_arg = {"list_float": [float(v) for v in case["x0"]], "list_int": [int(v) for v in case["x0"]], "array": x0f.copy()}[case["x0_form"]]
+    t_arg = grid.tolist() if case["grid_form"] == "list" else grid.copy()
+    model.initial_values = (x0_arg, 0.0)
+    outs = []
+    for full in (False, True):
+        try:
+            with quiet():
+                out = model.integrate(t_arg, full_output=True) if full else model.integrate(t_arg)
+        except Exception as exc:
+            viol.append({"what": "integrate(t) raised %s: %s" % (type(exc).__name__, str(exc)[:160]), "signature": "integrate:long-horizon:raises", "detail": json.dumps(case["theta"])})
+            break
+        sol = np.asarray(out[0] if full else out, float)
+        if full and isinstance(out[1], dict):
+            tags.append("odeint-message:" + str(out[1].get("message", "?"))[:40])
+        sums = sol.sum(axis=1) if sol.ndim == 2 else np.array([np.nan])
+        # DIRECT ORACLE: the row sums (C10's statement), every requested row, relative 1e-6 of the head count
+        if sol.ndim != 2 or sol.shape[1] != len(states) or not np.all(np.isfinite(sums)) or np.abs(sums - total).max() > 1e-6 * total:
+            viol.append({"what": "integrate(t%s).sum(axis=1) is not the total population on a long, sparsely sampled horizon of a closed model (%s)"
+                                 % (", full_output=True" if full else "", case["name"]),
+                         "signature": "integrate-sum-drift:long-horizon",
+                         "detail": "requested times %s: row sums %s, total %s; steps needed per gap (independent count) %s; theta %s"
+                                   % (case["grid"], sums.tolist(), total, nst.tolist(), case["theta"])})
+            break
+        outs.append(sol)
+    if not viol:
+        tags.append("long:integrated")
+    return {"nontrivial": bool(nst.max() > 500), "mismatches": mism, "violations": viol, "tags": tags,
+            "sample": {"name": case["name"], "x0": case["x0"], "theta": case["theta"], "grid": case["grid"]}}
 
 
 def quiet():
@@ -74,6 +194,8 @@ def quiet():
 
 
 def run_case(case):
+    if case.get("kind") == "long":
+        return run_long(case)
     spec, meta = case["spec"], case["meta"]
     tags, mism, viol = [], [], []
     lr, model, perr, stage = build_both(spec)
